@@ -283,6 +283,12 @@ class Ref:
                     table = dict(op[2])
                     if v[2] in table:
                         pt.set_(node, op[1], pt.scalar_pt(table[v[2]]))
+        elif k == 'int_add':
+            if is_map:
+                v = pt.get(node, op[1])
+                if v is not None and v[0] == 's' and v[1] == TAGP + 'int':
+                    pt.set_(node, op[1], pt.scalar_pt(
+                        construct_scalar(v[1], v[2], self.resolve) + op[2]))
         elif k in ('map_to_seq', 'map_to_index'):
             if is_map:
                 try:
